@@ -172,8 +172,9 @@ def run_history(cls, hist):
 
 PARSE_LINES = {
     "DTSTART": ["DTSTART;VALUE=DATE:20240330", "DTSTART:20240330T120000", "DTSTART:20240330T120000Z", "DTSTART:PT1H", "DTSTART:120000",
-                "DTSTART;TZID=Europe/Berlin:20240330T120000"],
-    "END": ["{E};VALUE=DATE:20240331", "{E}:20240330T130000", "{E}:20240330T130000Z", "{E}:P1D"],
+                "DTSTART;TZID=Europe/Berlin:20240330T120000",
+                "DTSTART:20240330", "DTSTART;X-NOTE=DATE:20240330", "DTSTART;VALUE=DATE;X-A=1:20240330T120000"],
+    "END": ["{E};VALUE=DATE:20240331", "{E}:20240330T130000", "{E}:20240330T130000Z", "{E}:P1D", "{E}:20240402"],
     "DURATION": ["DURATION:P1D", "DURATION:PT5H", "DURATION:PT0S", "DURATION:20240102", "DURATION:20240101T000000/PT1H", "DURATION:120000"],
 }
 
@@ -187,7 +188,9 @@ def parsed_states(cls, limit, rnd):
     for combo in itertools.product(*pools):
         combos.append([x for x in combo if x])
     rnd.shuffle(combos)
-    for lines in combos[:limit]:
+    # every state with at most two of the lines is always explored (the type of a value is what was parsed, whatever the VALUE parameter says)
+    combos = [c for c in combos if len(c) <= 2] + [c for c in combos if len(c) > 2][:limit]
+    for lines in combos:
         text = f"BEGIN:{kind}\r\n" + "".join(l + "\r\n" for l in lines) + f"END:{kind}\r\n"
         try:
             c = getattr(icalendar, cls).from_ical(text)
